@@ -88,100 +88,114 @@ fn pos(log: &LogSink, tag: u8) -> usize {
     if log.n > 0 && log.tag[0] == tag { 0 } else if log.n > 1 && log.tag[1] == tag { 1 } else if log.n > 2 && log.tag[2] == tag { 2 } else if log.n > 3 && log.tag[3] == tag { 3 } else { 6 }
 }
 
-// Oracle over everything delivered so far, two-packet history (C01 + the safety half of C02).
-fn check2(base: u32, h: &[Sent; 2], log: &LogSink, r: &PacketReceiver) {
+fn history4() -> [Sent; 4] {
+    let [h0, h1, h2] = history3();
+    let mut h3 = any_sent();
+    if h2.reliable { h3.wpl = 1; } else if h1.reliable { h3.wpl = 2; } else if h0.reliable { h3.wpl = 3; }
+    if h2.reliable && h2.ch == h3.ch { h3.cpl = 1; } else if h1.reliable && h1.ch == h3.ch { h3.cpl = 2; } else if h0.reliable && h0.ch == h3.ch { h3.cpl = 3; }
+    [h0, h1, h2, h3]
+}
+
+// Oracle over everything delivered so far for a history of n <= 4 packets (C01 + the safety half of C02).
+fn check_n(base: u32, n: usize, h: &[Sent; 4], log: &LogSink, r: &PacketReceiver) {
     assert!(log.len_ok, "[C01,C04] delivered length equals submitted length");
-    assert!(log.n <= 2, "[C01] nothing is delivered twice (more deliveries than packets sent)");
-    if log.n >= 1 { assert!(log.tag[0] < 2 && log.val[0] == h[log.tag[0] as usize].byte, "[C01] only submitted packets are delivered, contents unaltered"); }
-    if log.n == 2 {
-        assert!(log.tag[1] < 2 && log.val[1] == h[log.tag[1] as usize].byte, "[C01] only submitted packets are delivered, contents unaltered");
-        assert!(log.tag[0] != log.tag[1], "[C01] nothing is delivered twice");
-        if h[0].ch == h[1].ch { assert!(log.tag[0] == 0, "[C01] per-channel delivery follows submission order"); }
+    assert!(log.n <= n, "[C01] nothing is delivered twice (more deliveries than packets sent)");
+    let p = [pos(log, 0), pos(log, 1), pos(log, 2), pos(log, 3)];
+    let mut k = 0;
+    while k < 4 {
+        if k < log.n {
+            let t = log.tag[k] as usize;
+            assert!(t < n && log.val[k] == h[t].byte, "[C01] only submitted packets are delivered, contents unaltered");
+            assert!(p[t] == k, "[C01] nothing is delivered twice");
+        }
+        k += 1;
     }
-    let (p0, p1) = (pos(log, 0), pos(log, 1));
-    if p1 < 6 && h[0].reliable && h[0].ch == h[1].ch {
-        assert!(p0 < p1, "[C02,C01] a Reliable packet is delivered before any later packet of its channel");
+    let mut i = 0;
+    while i < n {
+        let mut j = i + 1;
+        while j < n {
+            if h[i].ch == h[j].ch {
+                if p[i] < 6 && p[j] < 6 { assert!(p[i] < p[j], "[C01] per-channel delivery follows submission order"); }
+                if h[i].reliable && p[j] < 6 { assert!(p[i] < p[j], "[C02,C01] a Reliable packet is delivered before any later packet of its channel"); }
+            }
+            j += 1;
+        }
+        // the window never moves past a Reliable packet that has not been delivered
+        if h[i].reliable && p[i] == 6 {
+            assert!(packet_id::sub(packet_id::add(base, i as u32), r.base_id()) < 4, "[C02] the receive window never passes an undelivered Reliable packet");
+        }
+        i += 1;
     }
-    // the window never moves past a Reliable packet that has not been delivered
-    if h[0].reliable && p0 == 6 { assert!(r.base_id() == base, "[C02] the receive window never passes an undelivered Reliable packet"); }
-    if h[1].reliable && p1 == 6 { assert!(packet_id::sub(packet_id::add(base, 1), r.base_id()) < 4, "[C02] the receive window never passes an undelivered Reliable packet"); }
-    assert!(packet_id::sub(r.base_id(), base) <= 2, "[C01] window base stays within the ids sent");
+    assert!(packet_id::sub(r.base_id(), base) <= n as u32, "[C01] window base stays within the ids sent");
 }
 
-fn schedule_n2_k2(base: u32) {
-    let h = history2();
-    let mut r = small(base, 1448 * 4);
-    let mut log = LogSink::new();
-    let a0: usize = kani::any();
-    let a1: usize = kani::any();
-    kani::assume(a0 < 2 && a1 < 2);
-    r.handle_datagram(datagram_of(base, a0, &h[a0]));
-    if kani::any() {
-        r.receive(&mut log);
-        check2(base, &h, &log, &r);
-    }
-    r.handle_datagram(datagram_of(base, a1, &h[a1]));
-    r.receive(&mut log);
-    check2(base, &h, &log, &r);
-    kani::cover!(log.n == 2, "everything delivered");
-    kani::cover!(log.n == 1 && a0 == a1, "a duplicate was dropped");
-    kani::cover!(log.n == 0, "the only arrival is blocked behind a missing Reliable parent");
-    std::mem::forget(r);
-}
-
-//@h props=C01,C02 tier=quick timeout=1800 role=receiver-model
-//@fn PacketReceiver::{handle_datagram, receive, advance_window, set_channel_base_id, try_unset_channel_base_id}, AssemblyWindow::{try_add, clear}, datagram_is_valid
-//@bound W=4 slots, base id 0; history of 2 packets (channel in {0,1}, reliable or not, one symbolic payload byte, leads per the sender rule); 2 arrivals each choosing ANY packet of the history (loss, duplication, reordering), receive() after the first arrival or not (any), receive() at the end
-#[kani::proof]
-#[kani::unwind(6)]
-fn o1_4_receiver_model_n2_k2_base0() { schedule_n2_k2(0); }
-
-//@h props=C02,C01 tier=quick timeout=1800 role=receiver-model
-//@fn PacketReceiver::{handle_datagram, receive, advance_window, set_channel_base_id, try_unset_channel_base_id}, AssemblyWindow::{try_add, clear}, datagram_is_valid
-//@bound W=4 slots, base id 2^20-1 (the second packet's id wraps to 0); history of 2 packets; 2 arrivals of ANY packet of the history; receive() cadence any
-#[kani::proof]
-#[kani::unwind(6)]
-fn o1_4_receiver_model_n2_k2_wrap() { schedule_n2_k2(0xFFFFF); }
-
-//@h props=C01,C02 tier=thorough timeout=3000 role=receiver-model
-//@fn PacketReceiver::{handle_datagram, receive, advance_window, set_channel_base_id, try_unset_channel_base_id}, AssemblyWindow::{try_add, clear}
-//@bound W=4 slots, base id 2^20-2; history of 3 packets; 3 arrivals of ANY packet of the history; receive() after every arrival
-#[kani::proof]
-#[kani::unwind(6)]
-fn o1_4_receiver_model_n3_k3_wrap() {
-    let base = 0xFFFFE;
-    let h = history3();
+// One concrete schedule shape: which packet of the history arrives k-th and after which arrivals the
+// application calls receive() (bit k of recv_mask; always after the last).  Everything that does not select
+// a window slot stays symbolic: channels, Reliable or not, payload bytes (and with them the parent leads).
+fn run_shape<const K: usize>(base: u32, n: usize, arrivals: [usize; K], recv_mask: u32) -> usize {
+    let h = history4();
     let mut r = small(base, 1448 * 4);
     let mut log = LogSink::new();
     let mut k = 0;
-    while k < 3 {
-        let a: usize = kani::any();
-        kani::assume(a < 3);
+    while k < K {
+        let a = arrivals[k];
         r.handle_datagram(datagram_of(base, a, &h[a]));
-        r.receive(&mut log);
+        if recv_mask & (1 << k) != 0 || k + 1 == K {
+            r.receive(&mut log);
+            check_n(base, n, &h, &log, &r);
+        }
         k += 1;
     }
-    assert!(log.len_ok && log.n <= 3, "[C01] nothing is delivered twice");
-    let (p0, p1, p2) = (pos(&log, 0), pos(&log, 1), pos(&log, 2));
-    let mut i = 0;
-    while i < log.n && i < 3 {
-        assert!(log.tag[i] < 3 && log.val[i] == h[log.tag[i] as usize].byte, "[C01] only submitted packets are delivered, contents unaltered");
-        i += 1;
-    }
-    if log.n >= 2 { assert!(log.tag[0] != log.tag[1], "[C01] nothing is delivered twice"); }
-    if log.n == 3 { assert!(log.tag[0] != log.tag[2] && log.tag[1] != log.tag[2], "[C01] nothing is delivered twice"); }
-    if p0 < 6 && p1 < 6 && h[0].ch == h[1].ch { assert!(p0 < p1, "[C01] per-channel delivery follows submission order"); }
-    if p0 < 6 && p2 < 6 && h[0].ch == h[2].ch { assert!(p0 < p2, "[C01] per-channel delivery follows submission order"); }
-    if p1 < 6 && p2 < 6 && h[1].ch == h[2].ch { assert!(p1 < p2, "[C01] per-channel delivery follows submission order"); }
-    if p1 < 6 && h[0].reliable && h[0].ch == h[1].ch { assert!(p0 < p1, "[C02,C01] a Reliable packet is delivered before any later packet of its channel"); }
-    if p2 < 6 && h[0].reliable && h[0].ch == h[2].ch { assert!(p0 < p2, "[C02,C01] a Reliable packet is delivered before any later packet of its channel"); }
-    if p2 < 6 && h[1].reliable && h[1].ch == h[2].ch { assert!(p1 < p2, "[C02,C01] a Reliable packet is delivered before any later packet of its channel"); }
-    if h[0].reliable && p0 == 6 { assert!(r.base_id() == base, "[C02] the receive window never passes an undelivered Reliable packet"); }
-    kani::cover!(log.n == 3, "everything delivered");
     std::mem::forget(r);
+    log.n
 }
 
-//@h props=C05,C01 tier=quick timeout=1800 role=receiver-inorder
+macro_rules! shape {
+    ($name:ident, $base:expr, $n:expr, $arr:expr, $mask:expr) => {
+        #[kani::proof]
+        #[kani::unwind(6)]
+        fn $name() { let d = run_shape($base, $n, $arr, $mask); kani::cover!(d >= 1, "something is delivered"); }
+    };
+}
+
+//@h props=C01,C02 tier=quick timeout=900 role=receiver-model args=--no-memory-safety-checks
+//@assume Kani pointer checks off in this functional obligation (the same code runs with them on in the C03 obligations)
+//@fn PacketReceiver::{handle_datagram, receive, advance_window, set_channel_base_id, try_unset_channel_base_id}, AssemblyWindow::{try_add, clear}, datagram_is_valid
+//@bound W=4, base 2^20-1 (ids wrap); history of 2 packets (channels in {0,1}, Reliable or not, payload bytes symbolic; leads per the sender rule); schedule shape: arrivals [1,0] (reordered), receive() after each
+shape!(o1_4_shape_n2_reordered, 0xFFFFF, 2, [1, 0], 0b11);
+//@h props=C01,C02 tier=quick timeout=900 role=receiver-model args=--no-memory-safety-checks
+//@assume Kani pointer checks off in this functional obligation (the same code runs with them on in the C03 obligations)
+//@fn PacketReceiver::{handle_datagram, receive, advance_window, set_channel_base_id, try_unset_channel_base_id}, AssemblyWindow::{try_add, clear}
+//@bound W=4, base 0; history of 2 packets; schedule shape: arrivals [1,1,0] (duplicate, then the older packet), receive() after each
+shape!(o1_4_shape_n2_duplicate_then_older, 0, 2, [1, 1, 0], 0b111);
+//@h props=C02,C01 tier=quick timeout=900 role=receiver-model args=--no-memory-safety-checks
+//@assume Kani pointer checks off in this functional obligation (the same code runs with them on in the C03 obligations)
+//@fn PacketReceiver::{handle_datagram, receive, advance_window, set_channel_base_id, try_unset_channel_base_id}, AssemblyWindow::{try_add, clear}
+//@bound W=4, base 2^20-2; history of 3 packets; schedule shape: arrivals [2,0,1], receive() after each
+shape!(o1_4_shape_n3_last_first, 0xFFFFE, 3, [2, 0, 1], 0b111);
+//@h props=C01,C02 tier=thorough timeout=1800 role=receiver-model args=--no-memory-safety-checks
+//@assume Kani pointer checks off in this functional obligation (the same code runs with them on in the C03 obligations)
+//@fn PacketReceiver::{handle_datagram, receive, advance_window, set_channel_base_id, try_unset_channel_base_id}, AssemblyWindow::{try_add, clear}
+//@bound W=4, base 2^20-2; history of 3 packets; schedule shape: arrivals [1,2,0], receive() only at the end
+shape!(o1_4_shape_n3_first_last_batched, 0xFFFFE, 3, [1, 2, 0], 0b000);
+//@h props=C01,C02 tier=thorough timeout=1800 role=receiver-model args=--no-memory-safety-checks
+//@assume Kani pointer checks off in this functional obligation (the same code runs with them on in the C03 obligations)
+//@fn PacketReceiver::{handle_datagram, receive, advance_window, set_channel_base_id, try_unset_channel_base_id}, AssemblyWindow::{try_add, clear}
+//@bound W=4 completely used, base 2^20-3; history of 4 packets; schedule shape: arrivals [3,0,2] (the last slot of the window first, then the oldest, then a late older packet), receive() after each
+shape!(o1_4_shape_n4_last_slot_then_oldest_then_late, 0xFFFFD, 4, [3, 0, 2], 0b111);
+//@h props=C01,C02 tier=thorough timeout=1800 role=receiver-model args=--no-memory-safety-checks
+//@assume Kani pointer checks off in this functional obligation (the same code runs with them on in the C03 obligations)
+//@fn PacketReceiver::{handle_datagram, receive, advance_window, set_channel_base_id, try_unset_channel_base_id}, AssemblyWindow::{try_add, clear}
+//@bound W=4 completely used, base 0; history of 4 packets; schedule shape: arrivals [3,1,0,2], receive() after each
+shape!(o1_4_shape_n4_3102, 0, 4, [3, 1, 0, 2], 0b1111);
+//@h props=C01,C02 tier=thorough timeout=1800 role=receiver-model args=--no-memory-safety-checks
+//@assume Kani pointer checks off in this functional obligation (the same code runs with them on in the C03 obligations)
+//@fn PacketReceiver::{handle_datagram, receive, advance_window, set_channel_base_id, try_unset_channel_base_id}, AssemblyWindow::{try_add, clear}
+//@bound W=4 completely used, base 2^20-1; history of 4 packets; schedule shape: arrivals [2,3,0,1,2] (with a late duplicate), receive() after arrivals 2 and 4 and at the end
+shape!(o1_4_shape_n4_23012, 0xFFFFF, 4, [2, 3, 0, 1, 2], 0b01010);
+
+//@h props=C05,C01 tier=quick timeout=1800 role=receiver-inorder args=--no-memory-safety-checks
+//@assume Kani pointer checks off in this functional obligation (the same code runs with them on in the C03 obligations)
 //@fn PacketReceiver::{handle_datagram, receive, advance_window}, AssemblyWindow::{try_add, clear}
 //@bound W=4, base 2^20-1; history of 3 packets (channels, modes, bytes any); ideal network: packet n arrives n-th; receive() after the second arrival or only at the end (any)
 #[kani::proof]
@@ -308,7 +322,8 @@ fn o3_10_over_limit_packet_then_receive() {
     std::mem::forget(r);
 }
 
-//@h props=C02,C11 tier=quick timeout=1800 role=receiver-resync
+//@h props=C02,C11 tier=quick timeout=1800 role=receiver-resync args=--no-memory-safety-checks
+//@assume Kani pointer checks off in this functional obligation (the same code runs with them on in the C03 obligations)
 //@fn PacketReceiver::{handle_datagram, resynchronize, receive, advance_window}
 //@bound W=4, base 2^20-2; history of 3 packets, ONE of them (any) arrived and was or was not yet handed to the application; then resynchronize(base+3) (the sender's next id)
 #[kani::proof]
